@@ -126,6 +126,7 @@ static void prop_c01(Tape &t, Result &r) {
   cfg.user_macros = t.chance(1, 2);
   cfg.force_call_in_loop = t.chance(1, 6);
   cfg.arith_heavy = cfg.user_macros && t.chance(1, 3);
+  cfg.wide_frame = !cfg.user_macros && t.chance(1, 12);
   Case c;
   decode_case(t, cfg, false, c);
   r.sample = case_json(c);
@@ -318,6 +319,7 @@ static void prop_c19(Tape &t, Result &r) {
   gp::GenCfg cfg;
   cfg.user_macros = t.chance(1, 4);
   cfg.force_call_in_loop = t.chance(1, 2);
+  cfg.wide_frame = !cfg.user_macros && t.chance(1, 12);
   Case c;
   decode_case(t, cfg, false, c);
   r.sample = case_json(c);
@@ -367,8 +369,9 @@ static Reg reg_c19({"C19", 500, prop_c19, nullptr, nullptr});
 static void prop_c16(Tape &t, Result &r) {
   gp::GenCfg cfg;
   cfg.loops_only = t.chance(2, 3);
-  cfg.user_macros = false;
+  cfg.user_macros = t.chance(1, 3);  // the library macros expand to LOOPs and assignments only
   cfg.max_depth = 3;
+  cfg.wide_frame = !cfg.user_macros && t.chance(1, 12);
   Case c;
   decode_case(t, cfg, false, c);
   r.sample = case_json(c);
@@ -527,11 +530,14 @@ static void prop_c20_lit(Tape &t, Result &r) {
       break;
     }
     case 2: {  // powers of two and neighbours that wrap 32-bit conversions
-      static const long long W[] = {4294967296LL, 4294967297LL, 4294967295LL, 2147483648LL, 8589934592LL, 4294967301LL, 2147483646LL};
-      long long v = W[t.pick(7)];
-      lit = std::to_string(v);
-      too_big = v >= base;
-      r.cls("literal:wraps-32-bit");
+      // values that wrap to something small under a 32- or 64-bit conversion: multiples of 2^32, 2^63, multiples of 2^64
+      static const char *W[] = {"4294967296", "4294967297", "4294967295", "2147483648", "8589934592", "4294967301", "12884901888",
+                                "9223372036854775807", "9223372036854775808", "9223372032559808512", "18446744073709551615",
+                                "18446744073709551616", "18446744073709551621", "36893488147419103232", "92233720368547758087",
+                                "340282366920938463463374607431768211456"};
+      lit = W[t.pick(16)];
+      too_big = true;
+      r.cls("literal:wraps-32-or-64-bit");
       break;
     }
     default: {
